@@ -74,3 +74,234 @@ theorem C03_bound_model (ti : TyInfo) (enodes : List ENode) (descs : List PDesc)
   exact C03_bound_chain_is_a_fixpoint ti funcs cannot4 bo.chain hc
 
 end Nject
+
+namespace Nject
+
+/-- every provider `characterizeAll` hands on has the must-consume switch the classification computes -/
+theorem characterizeAll_hasMustConsume : ∀ (provs : List PDesc) (ns : List Ty) (bi ai : List CP),
+    characterizeAll provs ns = some (bi, ai) → ∀ c ∈ bi ++ ai, c.hasMustConsume = !c.mustConsume.isEmpty
+  | [], _, bi, ai, h => by
+    simp only [characterizeAll, Option.some.injEq, Prod.mk.injEq] at h
+    obtain ⟨rfl, rfl⟩ := h
+    intro c hc; cases hc
+  | p :: rest, ns, bi, ai, h => by
+    simp only [characterizeAll] at h
+    cases hc0 : characterize p rest.isEmpty true with
+    | none => rw [hc0] at h; cases h
+    | some c0 =>
+      rw [hc0] at h
+      dsimp only at h
+      cases hc : (if (c0.group == .staticGroup && c0.inp.any fun t => t != tUnused && ns.contains t) = true then characterize p rest.isEmpty false else some c0) with
+      | none => rw [hc] at h; cases h
+      | some c =>
+        rw [hc] at h
+        dsimp only at h
+        have hcm : c.hasMustConsume = !c.mustConsume.isEmpty := by
+          split at hc
+          · exact characterize_hasMustConsume p _ _ c hc
+          · injection hc with hc; subst hc; exact characterize_hasMustConsume p _ _ c0 hc0
+        cases hr : characterizeAll rest (if (c.group == .runGroup || c.group == .invokeGroup) = true then c.out ++ ns else ns) with
+        | none => rw [hr] at h; cases h
+        | some r =>
+          obtain ⟨bi', ai'⟩ := r
+          rw [hr] at h
+          dsimp only at h
+          have ih := characterizeAll_hasMustConsume rest _ bi' ai' hr
+          split at h
+          · injection h with h
+            simp only [Prod.mk.injEq] at h
+            obtain ⟨rfl, rfl⟩ := h
+            intro x hx
+            simp only [List.cons_append, List.mem_cons] at hx
+            rcases hx with rfl | hx
+            · exact hcm
+            · exact ih x hx
+          · injection h with h
+            simp only [Prod.mk.injEq] at h
+            obtain ⟨rfl, rfl⟩ := h
+            intro x hx
+            simp only [List.mem_append, List.mem_cons] at hx
+            rcases hx with hx | rfl | hx
+            · exact ih x (List.mem_append_left _ hx)
+            · exact hcm
+            · exact ih x (List.mem_append_right _ hx)
+
+end Nject
+
+namespace Nject
+
+def MCok (c : CP) : Prop := c.hasMustConsume = !c.mustConsume.isEmpty
+
+theorem addUnused_mem (funcs : List CP) (k : Nat) : ∀ c ∈ (addUnused funcs k).funcs, c ∈ funcs ∨ c = unusedInCP ∨ c = unusedRetCP := by
+  intro c hc
+  unfold addUnused at hc
+  dsimp only at hc
+  have base : ∀ x, x ∈ (if (funcs.any fun f => f.inp.contains tUnused || f.byp.contains tUnused) = true then unusedInCP :: funcs else funcs) →
+      x ∈ funcs ∨ x = unusedInCP ∨ x = unusedRetCP := by
+    intro x hx
+    split at hx
+    · rcases List.mem_cons.mp hx with rfl | hx
+      · exact Or.inr (Or.inl rfl)
+      · exact Or.inl hx
+    · exact Or.inl hx
+  split at hc
+  · rcases List.mem_append.mp hc with hc | hc
+    · rcases List.mem_append.mp hc with hc | hc
+      · exact base c (List.dropLast_subset _ hc)
+      · simp at hc; exact Or.inr (Or.inr hc)
+    · exact base c (List.mem_of_mem_drop hc)
+  · exact base c hc
+
+theorem assemble_hasMustConsume (provs : List PDesc) (inv : Sig) (ini : Option Sig) (asm : Assembled)
+    (h : assemble provs inv ini = some asm) : ∀ c ∈ asm.funcs, MCok c := by
+  unfold assemble at h
+  cases hc : characterizeAll provs inv.ins with
+  | none => rw [hc] at h; cases h
+  | some r =>
+    obtain ⟨bi, ai⟩ := r
+    rw [hc] at h
+    dsimp only at h
+    have hba := characterizeAll_hasMustConsume provs inv.ins bi ai hc
+    injection h with h
+    subst h
+    intro c hcm
+    rcases addUnused_mem _ _ c hcm with hin | rfl | rfl
+    · rcases List.mem_append.mp hin with hin | ha
+      · rcases List.mem_append.mp hin with hin | hinv
+        · rcases List.mem_append.mp hin with hhead | hb
+          · rcases List.mem_cons.mp hhead with rfl | hi
+            · rfl
+            · cases ini with
+              | none => cases hi
+              | some s => simp at hi; subst hi; rfl
+          · exact hba c (List.mem_append_left _ hb)
+        · simp at hinv; subst hinv; rfl
+      · exact hba c (List.mem_append_right _ ha)
+    · rfl
+    · rfl
+
+end Nject
+
+namespace Nject
+
+theorem initState_c (funcs : List CP) (cannot0 : List Nat) (j : Nat) :
+    ((initState funcs cannot0).get j).c = funcs.getD j default := by
+  by_cases hj : j < funcs.length
+  · unfold initState Chain.get
+    have hz : j < (funcs.zip (List.range funcs.length)).length := by simp [hj]
+    simp [List.getD, List.getElem?_map, List.getElem?_eq_getElem hz, List.getElem?_eq_getElem hj]
+  · rw [get_default_of_ge _ j (by rw [initState_length]; exact hj)]
+    simp [List.getD, List.getElem?_eq_none (Nat.le_of_not_lt hj)]
+    rfl
+
+theorem inclusionBeforeFinal_SF (ti : TyInfo) (funcs : List CP) (cannot0 : List Nat) (pre : Chain)
+    (h : inclusionBeforeFinal ti funcs cannot0 = .ok pre) : SF (initState funcs cannot0) pre := by
+  unfold inclusionBeforeFinal at h
+  split at h
+  · cases h
+  · rename_i ch1 hv
+    injection h with h
+    subst h
+    unfold firstValidation at hv
+    exact SF_trans (SF_trans (SF_trans (providesReturns_SF ti _ _) (validate_SF true _ ch1 hv)) (pruneStages_SF ch1)) (providesReturns_SF ti _ _)
+
+theorem inclusionBeforeFinal_c (ti : TyInfo) (funcs : List CP) (cannot0 : List Nat) (pre : Chain)
+    (h : inclusionBeforeFinal ti funcs cannot0 = .ok pre) (j : Nat) : (pre.get j).c = funcs.getD j default := by
+  rw [((inclusionBeforeFinal_SF ti funcs cannot0 pre h).2 j).2.2.1]
+  exact initState_c funcs cannot0 j
+
+/-- the classification of the provider at each position is what was handed to the include computation -/
+theorem computeInclusion_c (ti : TyInfo) (funcs : List CP) (cannot0 : List Nat) (ch : Chain)
+    (h : computeInclusion ti funcs cannot0 = .ok ch) (j : Nat) : (ch.get j).c = funcs.getD j default := by
+  unfold computeInclusion at h
+  split at h
+  · cases h
+  · rename_i pre hpre
+    split at h
+    · cases h
+    · rename_i chf hv
+      injection h with h
+      subst h
+      have hfr := SF_of_FR (validate_FR true pre _ hv)
+      rw [(hfr.2 j).2.2.1]
+      exact inclusionBeforeFinal_c ti funcs cannot0 pre hpre j
+
+theorem applyOrder_mem (asm0 asm : Assembled) (order4 : Option (List Nat)) (h : applyOrder asm0 order4 = some asm) :
+    ∀ c ∈ asm.funcs, c ∈ asm0.funcs := by
+  unfold applyOrder at h
+  cases order4 with
+  | none => simp only [Option.some.injEq] at h; subst h; exact fun _ hc => hc
+  | some o =>
+    simp only [Option.map_eq_some_iff] at h
+    obtain ⟨fs, hp, rfl⟩ := h
+    unfold permuteTo at hp
+    dsimp only at hp
+    split at hp
+    · injection hp with hp
+      subst hp
+      intro c hc
+      obtain ⟨id, _, hf⟩ := List.mem_filterMap.mp hc
+      exact List.mem_of_find?_eq_some hf
+    · cases hp
+
+/-- **C14, whole pipeline**: whenever the model binds, every output an included provider marks MustConsume is taken by
+    an included provider listed after it (or by the init function through the invoke bypass). -/
+theorem C14_bound_model (ti : TyInfo) (enodes : List ENode) (descs : List PDesc) (inv : Sig) (ini : Option Sig)
+    (order4 : Option (List Nat)) (cannot4 : List Nat) (bo : BindOut)
+    (h : bindModel ti enodes descs inv ini order4 cannot4 = .ok bo)
+    (j : Nat) (hj : (bo.chain.get j).inc = true) (t : Ty) (ht : t ∈ (bo.chain.get j).c.out)
+    (hm : (bo.chain.get j).c.mustConsume.contains t = true) (hu : t ≠ tUnused) :
+    ∃ q, (bo.chain.get q).inc = true ∧ ((j < q ∧ t ∈ (bo.chain.get q).c.inp) ∨ t ∈ (bo.chain.get q).c.byp) := by
+  -- retrace the stages
+  unfold bindModel at h
+  cases he : editAll enodes with
+  | error e => rw [he] at h; cases h
+  | ok order =>
+    rw [he] at h
+    dsimp only at h
+    cases ha : assemble (order.filterMap fun n => descs.find? (·.idx == n.idx)) inv ini with
+    | none => rw [ha] at h; cases h
+    | some asm0 =>
+      rw [ha] at h
+      dsimp only at h
+      cases hp : applyOrder asm0 order4 with
+      | none => rw [hp] at h; cases h
+      | some asm =>
+        rw [hp] at h
+        dsimp only at h
+        have hbt := h
+        unfold bindTail at h
+        cases hc : computeInclusion ti asm.funcs cannot4 with
+        | error e => rw [hc] at h; cases e <;> cases h
+        | ok ch =>
+          rw [hc] at h
+          dsimp only at h
+          by_cases hsh : (!checkShadowing ch) = true
+          · rw [if_pos hsh] at h; cases h
+          · rw [if_neg hsh] at h
+            have key : ∀ (b : Bool) (x : BindOut),
+                (if b = true then (Except.error BindErr.initType : Except BindErr BindOut) else .ok x) = .ok bo → x = bo := by
+              intro b x hx
+              cases b
+              · simpa using hx
+              · simp at hx
+            have hbo := key _ _ h
+            subst hbo
+            dsimp only at hj ht hm ⊢
+            -- the switch of the provider at j
+            have hcj := computeInclusion_c ti asm.funcs cannot4 ch hc j
+            have hmc : MCok (ch.get j).c := by
+              rw [hcj]
+              by_cases hjl : j < asm.funcs.length
+              · have hmem : asm.funcs.getD j default ∈ asm.funcs := by
+                  simp [List.getD, List.getElem?_eq_getElem hjl]
+                exact assemble_hasMustConsume _ inv ini asm0 ha _ (applyOrder_mem asm0 asm order4 hp _ hmem)
+              · simp [List.getD, List.getElem?_eq_none (Nat.le_of_not_lt hjl)]
+                rfl
+            obtain ⟨q, hq, hcase⟩ := C14_bound_chain_mustconsume_is_consumed ti asm.funcs cannot4 ch hc j hj t ht hm hu hmc
+            refine ⟨q, hq, ?_⟩
+            rcases hcase with ⟨hlt, hin⟩ | ⟨_, hb⟩
+            · exact Or.inl ⟨hlt, hin⟩
+            · exact Or.inr hb
+
+end Nject
